@@ -20,7 +20,8 @@ DAY = datetime.timedelta(days=1)
 CHAIN_FAULTS = [
     "C.untrusted-issuer", "C.impostor-root-same-name", "C.leaf-expired", "C.leaf-not-yet", "C.int-expired",
     "C.int-not-yet", "C.root-expired", "C.sig-corrupt-leaf", "C.sig-corrupt-int", "C.int-missing", "C.int-not-ca",
-    "C.self-signed-leaf", "C.evil-root-in-x5c",
+    "C.self-signed-leaf", "C.evil-root-in-x5c", "C.signer-ca-before-reversed-genuine-chain",
+    "C.impostor-root-copied-ski",
 ]
 # faults that only mean something when the chain has an intermediate (one is added if none was asked for)
 NEED_INTERMEDIATE = {"C.int-expired", "C.int-not-yet", "C.sig-corrupt-int", "C.int-missing", "C.int-not-ca"}
@@ -129,6 +130,7 @@ class Chain:
     issuing_root: Optional[x509.Certificate] = None
     withheld: List[x509.Certificate] = field(default_factory=list)   # intermediates that exist but stay out of x5c
     smuggle_issuing_root: bool = False
+    tail_is_issuing_root: bool = False      # when x5c is asked to end with "the root", it ends with the CA that really issued it
 
     def x5c(self, order: str = "normal", extras=(), include_root: bool = False) -> List[bytes]:
         """DER certificates, leaf first.  "reversed" lists the intermediates root-side first;
@@ -138,7 +140,7 @@ class Chain:
             presented.reverse()
         elif order != "normal":
             raise ValueError(f"unknown chain order {order!r}")
-        tail = [self.root] if include_root else []
+        tail = [self.issuing_root if self.tail_is_issuing_root else self.root] if include_root else []
         # C.evil-root-in-x5c: the attacker ships the self-signed CA that really issued the chain
         smuggled = [self.issuing_root] if self.smuggle_issuing_root and self.issuing_root is not None else []
         return [_der(c) for c in [self.leaf] + presented + smuggled + list(extras) + tail]
@@ -211,6 +213,15 @@ def build_chain(leaf_pubkey, *, leaf_subject: Optional[x509.Name] = None, leaf_e
 
     real_root = _root(ROOT_NAME, root_key, _window("root", validity, faults), base)
     issuer_cert, issuer_key = real_root, root_key
+    genuine_root = None
+    if "C.impostor-root-copied-ski" in faults:
+        # the chain is issued by the attacker's own CA (own key), which copies the trusted root's name and carries a
+        # SubjectKeyIdentifier extension set to the *trusted* root's key identifier; the RP trusts the genuine root only
+        genuine_root = real_root
+        ski = x509.SubjectKeyIdentifier.from_public_key(root_key.public_key())
+        real_root = make_cert(ROOT_NAME, None, other_root_key, other_root_key.public_key(), ca=True,
+                              extensions=[(ski, False)], **_dates(_window("root", validity, faults), base))
+        issuer_cert, issuer_key = real_root, other_root_key
     intermediates: List[x509.Certificate] = []
     for idx in reversed(range(n)):                      # root-side first, so each has its issuer ready
         key = inter_keys[idx % len(inter_keys)]
@@ -225,9 +236,25 @@ def build_chain(leaf_pubkey, *, leaf_subject: Optional[x509.Name] = None, leaf_e
     elif leaf_issuer_key_override is not None:
         issuer_key = leaf_issuer_key_override
     subject = leaf_subject if leaf_subject is not None else name("Sim Leaf")   # the empty name is a valid choice
+    if "C.signer-ca-before-reversed-genuine-chain" in faults:
+        # The statement is signed by the attacker's own self-signed, CA-flagged certificate, which comes first in x5c;
+        # after it the attacker lists somebody else's genuine chain (public material) issuer-side first, genuine
+        # end-entity certificate last.  Nothing links the first certificate to the anchors.
+        if leaf_privkey is None:
+            raise ValueError("C.signer-ca-before-reversed-genuine-chain needs leaf_privkey")
+        genuine_key = keys.get("p256", 3)
+        genuine_leaf = make_cert(None, issuer_cert, issuer_key, genuine_key.public_key(), subject=subject, ca=leaf_ca,
+                                 extensions=leaf_extensions, version=leaf_version, **_dates(_window("leaf", validity, faults), base))
+        own_exts = [(e, c) for e, c in leaf_extensions if not isinstance(e, (x509.BasicConstraints, x509.KeyUsage))]
+        signer = make_cert(None, None, leaf_privkey, leaf_pubkey, subject=subject, ca=True, extensions=own_exts,
+                           version=leaf_version, **_dates(_window("leaf", validity, faults), base))
+        return Chain(leaf=signer, intermediates=list(reversed(intermediates)) + [genuine_leaf], root=real_root,
+                     issuing_root=real_root)
     leaf = make_cert(None, issuer_cert, issuer_key, leaf_pubkey, subject=subject, ca=leaf_ca, extensions=leaf_extensions, version=leaf_version,
                      corrupt_signature="C.sig-corrupt-leaf" in faults, **_dates(_window("leaf", validity, faults), base))
 
+    if genuine_root is not None:
+        return Chain(leaf=leaf, intermediates=intermediates, root=genuine_root, issuing_root=real_root, tail_is_issuing_root=True)
     return Chain(leaf=leaf, intermediates=intermediates, root=_trusted_root(real_root, faults, other_root_key, base),
                  issuing_root=real_root, withheld=intermediates[:1] if "C.int-missing" in faults else [],
                  smuggle_issuing_root="C.evil-root-in-x5c" in faults)
